@@ -319,7 +319,9 @@ Definition oint (o : option str) : option (option Z) :=
   | Some t => match py_int t with Some z => Some (Some z) | None => None end
   end.
 
-Definition duration_parse (value : str) : option xduration :=
+(* XmlDuration.__init__ strips the value (like XmlPeriod) before _parse_interval *)
+Definition duration_parse (value0 : str) : option xduration :=
+  let value := py_strip value0 in
   if negb (str_eqb xml_duration_re_pattern expected_duration_pattern) then None else
   if (length value <? 3)%nat || endswith [84%N] value then None else
   let '(neg, s0) := match value with 45%N :: r => (true, r) | _ => (false, value) end in
